@@ -73,3 +73,14 @@ func dumpPath(e *Engine, a, b string, stopName string) {
 	}
 	fmt.Println("no path")
 }
+
+func runSurvey(e *Engine, what string) {
+	switch what {
+	case "acc":
+		for _, f := range e.ScopeFuncs() {
+			for _, lf := range loopFlags(f) {
+				fmt.Printf("%-6v init=%-5v %s %s\n", lf.Sticky, lf.Init, fname(f), e.ipos(lf.Phi))
+			}
+		}
+	}
+}
